@@ -488,6 +488,87 @@ fn vault_reads(run: &Run) {
     run.count("transitions", execs);
 }
 
+/// The vault read through the *real* client-side SwarmDriver: the holders' answers are kad events (one per distinct
+/// holder) handled by the real accumulation code, in every sequence of 3..=5 answers over {v1, v2, unsigned-9}, followed
+/// by the end of the query. What the read returns must be the highest authentic version among the answers delivered
+/// before it completed.
+fn vault_through_the_driver(run: &Run) {
+    use crate::driver_rig::DriverRig;
+    use libp2p::kad::{self, PeerRecord, ProgressStep, QueryResult, QueryStats};
+    use std::num::NonZeroUsize;
+    let vs = versions();
+    let pick = |name: &str| vs.iter().find(|v| v.name == name).expect("version").clone();
+    let menu = [pick("v1"), pick("v2"), pick("unsigned-9 (old ciphertext)")];
+    let mut execs = 0u64;
+    for len in 3..=5usize {
+        enumerate_sequences(menu.len(), len, &mut |seq: &[usize]| {
+            execs += 1;
+            let mut rig = DriverRig::new_client(1);
+            let client = autonomi::Client::verif_new(rig.network.clone(), ant_evm::EvmNetwork::ArbitrumOne);
+            let slot: std::sync::Arc<std::sync::Mutex<Option<Result<(Bytes, u64), String>>>> = Default::default();
+            let s2 = slot.clone();
+            let sk = bls_sk(OWNER);
+            rig.exec.add("vault-read", async move {
+                let r = client.fetch_and_decrypt_vault(&sk).await.map_err(|e| format!("{e:?}"));
+                *s2.lock().unwrap() = Some(r);
+            });
+            rig.settle();
+            while let Some(c) = rig.outbox.pop_front() {
+                let _ = rig.handle_network(c);
+            }
+            let mut delivered: Vec<&Version> = vec![];
+            if let Some(id) = rig.driver.verif_pending_get_record().first().map(|x| x.0) {
+                for (n, vi) in seq.iter().enumerate() {
+                    if slot.lock().unwrap().is_some() {
+                        break; // the read has completed: later answers are not "received" by it
+                    }
+                    let pr = PeerRecord { peer: Some(peer_id(70 + n as u8)), record: menu[*vi].record.clone() };
+                    let ev = kad::Event::OutboundQueryProgressed { id, result: QueryResult::GetRecord(Ok(kad::GetRecordOk::FoundRecord(pr))), stats: QueryStats::empty(), step: ProgressStep { count: NonZeroUsize::new(n + 1).unwrap(), last: false } };
+                    delivered.push(&menu[*vi]);
+                    let d = &mut rig.driver;
+                    let _ = rig.exec.capture(None, "driver", || d.verif_handle_kad_event(ev));
+                    rig.settle();
+                }
+                if slot.lock().unwrap().is_none() {
+                    let ev = kad::Event::OutboundQueryProgressed { id, result: QueryResult::GetRecord(Ok(kad::GetRecordOk::FinishedWithNoAdditionalRecord { cache_candidates: Default::default() })), stats: QueryStats::empty(), step: ProgressStep { count: NonZeroUsize::new(seq.len() + 1).unwrap(), last: true } };
+                    let d = &mut rig.driver;
+                    let _ = rig.exec.capture(None, "driver", || d.verif_handle_kad_event(ev));
+                    rig.settle();
+                }
+            }
+            let res = slot.lock().unwrap().take();
+            let names: Vec<&str> = seq.iter().map(|i| menu[*i].name).collect();
+            run.case(format!("vault via driver {names:?}").as_bytes(), true);
+            if execs <= 2 {
+                run.sample(json!({"read": "fetch_and_decrypt_vault through the real SwarmDriver", "answers_in_arrival_order": names}));
+            }
+            judge_vault(run, &delivered, "through-the-driver", res);
+        });
+    }
+    run.count("schedules", execs);
+    run.count("states", execs);
+    run.count("transitions", execs);
+}
+
+fn enumerate_sequences(n: usize, len: usize, f: &mut dyn FnMut(&[usize])) {
+    let mut idx = vec![0usize; len];
+    loop {
+        f(&idx);
+        let mut p = len;
+        loop {
+            if p == 0 {
+                return;
+            }
+            p -= 1;
+            idx[p] += 1;
+            if idx[p] < n {
+                break;
+            }
+            idx[p] = 0;
+        }
+    }
+}
+
 pub fn main(tier: Option<&str>) {
     std::env::set_var("CHUNK_DOWNLOAD_BATCH_SIZE", "64");
     let run = Run::new("C15", "model_checking", tier);
@@ -498,11 +579,13 @@ pub fn main(tier: Option<&str>) {
          a sibling chunk / a content chunk in place of the data map, in every completion order of the concurrent fetches. fetch_and_decrypt_vault: 14 versions (authentic \
          counters 1,2,3 and a fork at 2; unsigned / replayed-signature / forged / foreign at counter 9; a forgery tying with counter 2; forged, unsigned and \
          authentic pads under a chunk-kind header; garbage; a chunk record) delivered as one agreed record, inside \
-         not-enough-copies, and as a split result of every subset of 2..=3(4) versions in every iteration order of the result map. Every case is non-trivial.",
+         not-enough-copies, and as a split result of every subset of 2..=3(4) versions in every iteration order of the result map. And the vault read through the real client-side SwarmDriver: every sequence of 3..=5 holder answers over {v1, v2, unsigned-9} \
+         as kad events, then the end of the query. Every case is non-trivial.",
     );
     run.assume("the reply alphabet is what get_record_from_network can hand the client; how holders' answers become an agreed / split result is C05's subject");
     chunk_reads(&run);
     data_reads(&run);
     vault_reads(&run);
+    vault_through_the_driver(&run);
     run.finish();
 }
